@@ -33,12 +33,14 @@ type Case struct {
 }
 
 var kinds = []string{
-	"prop", "prop", "prop", "reprop",
-	"vote", "vote", "vote",
-	"polka", "polka", "polka", "polka", "pcmaj", "pcmaj",
-	"own", "ownall", "ownall", "ownall", "ownall",
-	"timeout", "timeout", "timeout", "start", "start",
-	"badvote", "parts", "lock", "lock", "lock", "lock", "nextround", "nextround", "nextround", "stalepolka", "stalepolka",
+	"prop", "prop", "reprop",
+	"vote", "vote",
+	"polka", "polka", "polka", "pcmaj",
+	"own", "ownall", "ownall", "ownall",
+	"timeout", "timeout", "start", "start", "start",
+	"badvote", "parts",
+	"lock", "lock", "lock", "lock", "nextround", "nextround", "nextround", "nextround",
+	"relock", "relock", "relock", "stalepolka", "stalepolka", "stalepolka",
 }
 
 func genCase(t *rapid.T) Case {
@@ -250,8 +252,11 @@ func runCase(c Case, x *h.Ctx) {
 		return bid, true
 	}
 	pick := func(sel int) (types.BlockID, bool) {
-		// selector: half the time the newest block of this height, else nil, an older block of this
-		// height, or an id that is no block at all
+		// selector: the block the subject is locked on (relock scenarios), the newest block of this
+		// height, nil, an older block of this height, or an id that is no block at all
+		if rs := sub.RS(); rs.LockedBlock != nil && sel%4 == 1 {
+			return types.BlockID{Hash: rs.LockedBlock.Hash(), PartsHeader: rs.LockedBlockParts.Header()}, true
+		}
 		if len(known) > 0 && sel%2 == 0 {
 			return known[len(known)-1], true
 		}
@@ -442,6 +447,26 @@ func runCase(c Case, x *h.Ctx) {
 			if op.C%2 == 0 {
 				ownAll()
 			}
+		case "relock":
+			// the subject is locked on B from an earlier round: give it a polka for B in its current
+			// round (it must relock and precommit B again)
+			if rs.LockedBlock == nil || rs.Step >= pbft.RoundStepPrecommit {
+				continue
+			}
+			if rs.Step == pbft.RoundStepNewHeight {
+				continue
+			}
+			ownAll()
+			lb := types.BlockID{Hash: rs.LockedBlock.Hash(), PartsHeader: rs.LockedBlockParts.Header()}
+			for _, p := range puppets {
+				if sub.RS().Height != rs.Height || sub.RS().Round != rs.Round {
+					break
+				}
+				if _, val := rs.Validators.GetByAddress(net.Nodes[p].Addr); val != nil {
+					deliverVote(sim.SignVote(p, rs.Validators, rs.Height, rs.Round, types.VoteTypePrevote, lb), true)
+				}
+			}
+			ownAll()
 		case "stalepolka":
 			// scripted attack shape: while the subject is locked, a polka for ANOTHER block at a round
 			// not later than the lock round arrives late (stale votes of an old round); afterwards the
@@ -463,7 +488,13 @@ func runCase(c Case, x *h.Ctx) {
 				// nil polka of an old round
 				ok = true
 			}
-			staleRound := rs.LockedRound - int64(mod(op.A, 2))
+			// any round up to the round of the subject's latest precommit of the block (taken from the
+			// harness's own record of what the subject signed, not from the implementation's field)
+			base := rs.LockedRound
+			if lockedKey != "" && lockedH == rs.Height && lockedR > base {
+				base = lockedR
+			}
+			staleRound := base - int64(mod(op.A, int(base)+1))
 			if staleRound < 0 {
 				staleRound = 0
 			}
